@@ -1347,6 +1347,18 @@ func (f *shpFacet) setBad(format string, a ...interface{}) {
 		f.bad = fmt.Sprintf(format, a...)
 	}
 }
+
+// setWhy files a run that ended early: a panic is the code's behaviour (a violation), anything else
+// is the interpreter's limit (undecided).
+func (f *shpFacet) setWhy(why, format string, a ...interface{}) {
+	what := fmt.Sprintf(format, a...)
+	if strings.HasPrefix(why, "panic:") {
+		f.setBad("%s", strings.Replace(what, "is not interpretable", "panics", 1)+": "+why)
+		return
+	}
+	f.setUnk("%s: %s", what, why)
+}
+
 func (f *shpFacet) setUnk(format string, a ...interface{}) {
 	if f.unk == "" {
 		f.unk = fmt.Sprintf(format, a...)
@@ -1487,9 +1499,9 @@ func c16model(c *Ctx, p *pkgT) {
 	var flows []flowCase
 	for _, tn := range order {
 		flows = append(flows, flowCase{tn, 0})
-		if tn == "Polygon" || tn == "Point" || c.Thorough {
-			flows = append(flows, flowCase{tn, 1})
-		}
+		// the geometry between the attributes, for every type: the encoder notes where the geometry
+		// field is type by type
+		flows = append(flows, flowCase{tn, 1})
 		if c.Thorough {
 			flows = append(flows, flowCase{tn, 2})
 		}
@@ -1526,7 +1538,7 @@ func c16model(c *Ctx, p *pkgT) {
 		arche.fields["Shape"] = s.it.zero(geomTypes[tn])
 		res, why := call(newEnc, nil, fname, oIface{dyn: arche, styp: encT})
 		if why != "" {
-			row.setUnk("NewEncoder is not interpretable for a record with a %s field: %s", tn, why)
+			row.setWhy(why, "NewEncoder is not interpretable for a record with a %s field", tn)
 			drainProblems(row, tn)
 			continue
 		}
@@ -1596,7 +1608,7 @@ func c16model(c *Ctx, p *pkgT) {
 			}
 			res, why := call(encode, enc, arg)
 			if why != "" {
-				row.setUnk("Encode is not interpretable for a %s record: %s", tn, why)
+				row.setWhy(why, "Encode is not interpretable for a %s record", tn)
 				failed = true
 			} else if !isNilErr(res[0]) {
 				row.setBad("Encode returns an error for a %s record (%d-byte string, count %d)", tn, len(labels[k]), counts[k])
@@ -1617,7 +1629,7 @@ func c16model(c *Ctx, p *pkgT) {
 		// decode
 		res, why = call(newDec, nil, strVal(strT, "out/"+tn+".shp"))
 		if why != "" || !isNilErr(res[1]) {
-			row.setUnk("NewDecoder is not interpretable or fails on the file just written: %s", why)
+			row.setWhy(why, "NewDecoder is not interpretable or fails on the file just written")
 			continue
 		}
 		dec := res[0]
@@ -1625,7 +1637,7 @@ func c16model(c *Ctx, p *pkgT) {
 			out := s.zeroRecord(decT)
 			res, why := call(decRow, dec, oIface{dyn: oPtr{out}, styp: types.NewPointer(decT)})
 			if why != "" {
-				row.setUnk("DecodeRow is not interpretable on record %d of a %s file: %s", k, tn, why)
+				row.setWhy(why, "DecodeRow is not interpretable on record %d of a %s file", k, tn)
 				break
 			}
 			more, _ := res[0].(oBool)
@@ -1716,7 +1728,7 @@ func c16model(c *Ctx, p *pkgT) {
 						out := s.zeroRecord(decT)
 						res, why := call(decRow, dec, oIface{dyn: oPtr{out}, styp: types.NewPointer(decT)})
 						if why != "" {
-							nf.setUnk("DecodeRow is not interpretable on a file whose second record has no shape: %s", why)
+							nf.setWhy(why, "DecodeRow is not interpretable on a file whose second record has no shape")
 							break
 						}
 						if more, _ := res[0].(oBool); !bool(more) {
@@ -1749,7 +1761,7 @@ func c16model(c *Ctx, p *pkgT) {
 		fields := s.m.sliceOf(types.NewSlice(ft), []oval{s.fieldValue('N', "id", 10, 0), s.fieldValue('C', "Name", 50, 0), s.fieldValue('F', "val", 30, 10)})
 		res, why := call(newEncF, nil, strVal(strT, "out/fields.shp"), oInt(5), fields)
 		if why != "" || !isNilErr(res[1]) {
-			rowsF.setUnk("NewEncoderFromFields is not interpretable: %s", why)
+			rowsF.setWhy(why, "NewEncoderFromFields is not interpretable")
 		} else {
 			enc := res[0]
 			var values []int64
@@ -1765,7 +1777,7 @@ func c16model(c *Ctx, p *pkgT) {
 				})
 				res, why := call(encodeF, enc, oIface{dyn: geoms[k]}, vals)
 				if why != "" {
-					rowsF.setUnk("EncodeFields is not interpretable: %s", why)
+					rowsF.setWhy(why, "EncodeFields is not interpretable")
 					ok = false
 				} else if !isNilErr(res[0]) {
 					rowsF.setBad("EncodeFields returns an error for a polygon record")
@@ -1775,7 +1787,7 @@ func c16model(c *Ctx, p *pkgT) {
 			if ok {
 				res, why = call(newDec, nil, strVal(strT, "out/fields"))
 				if why != "" || !isNilErr(res[1]) {
-					rowsF.setUnk("NewDecoder is not interpretable or fails on the file just written (name given without .shp): %s", why)
+					rowsF.setWhy(why, "NewDecoder is not interpretable or fails on the file just written (name given without .shp)")
 					ok = false
 				}
 			}
@@ -1785,7 +1797,7 @@ func c16model(c *Ctx, p *pkgT) {
 				for k := 0; k < 4; k++ {
 					res, why := call(decRowF, dec, names)
 					if why != "" && !(k == 3 && len(res) == 3) {
-						rowsF.setUnk("DecodeRowFields is not interpretable on record %d: %s", k, why)
+						rowsF.setWhy(why, "DecodeRowFields is not interpretable on record %d", k)
 						break
 					}
 					more, _ := res[2].(oBool)
@@ -1848,7 +1860,7 @@ func c16model(c *Ctx, p *pkgT) {
 						}
 						r, why := call(decRowF, dec2, arg)
 						if why != "" || len(r) != 3 {
-							rowsF.setUnk("DecodeRowFields is not interpretable when the first record is read without attribute names: %s", why)
+							rowsF.setWhy(why, "DecodeRowFields is not interpretable when the first record is read without attribute names")
 							break
 						}
 						if k == 0 {
